@@ -52,6 +52,18 @@ MUTS = {
             //block thread if the generator still running
 '''),
  'M21_future_ready_reads_state': lambda: sub('future.h','return _awaiter.load(std::memory_order_acquire) == &awaiter::disabled;','return _state != State::not_value || _awaiter.load(std::memory_order_acquire) == &awaiter::disabled;'),
+ 'M22_unlock_order_via_constexpr_local_relaxed': lambda: sub('mutex.h','            if (_requests.compare_exchange_strong(x, nullptr, std::memory_order_release)) [[likely]] {','            constexpr auto unlock_order = std::memory_order_relaxed;\n            if (_requests.compare_exchange_strong(x, nullptr, unlock_order)) [[likely]] {'),
+ 'M23_order_from_runtime_variable': lambda: sub('coro_storage.h','            me->_busy.store(false, std::memory_order_release);','            std::memory_order o = sz > 4096 ? std::memory_order_relaxed : std::memory_order_release;\n            me->_busy.store(false, o);'),
+ 'M24_subcr_for_break_loop_relaxed': lambda: sub('awaiter.h',"""        while (!chain.compare_exchange_weak(_next, this, std::memory_order_release)) {
+            if (_next == &ready_state) {""","""        for (;;) {
+            if (chain.compare_exchange_weak(_next, this, std::memory_order_relaxed)) break;
+            if (_next == &ready_state) {"""),
+ 'S9_orders_via_named_constants_and_for_break': lambda: (sub('awaiter.h',"""        while (!chain.compare_exchange_weak(_next, this, std::memory_order_release)) {
+            if (_next == &ready_state) {""","""        static constexpr std::memory_order publish_order = std::memory_order_release;
+        const std::memory_order refuse_order = std::memory_order_relaxed;
+        for (;;) {
+            if (chain.compare_exchange_weak(_next, this, publish_order, refuse_order)) break;
+            if (_next == &ready_state) {"""), sub('coro_storage.h','            me->_busy.store(false, std::memory_order_release);','            constexpr auto hand_back = std::memory_order_release;\n            me->_busy.store(false, hand_back);')),
  # must stay silent
  'S1_ready_seq_cst': lambda: sub('future.h','return _awaiter.load(std::memory_order_acquire) == &awaiter::disabled;','return _awaiter.load(std::memory_order_seq_cst) == &awaiter::disabled;'),
  'S2_rename_local': lambda: (sub('mutex.h','awaiter *req = _requests.exchange(doorman(), std::memory_order_acquire);','awaiter *taken = _requests.exchange(doorman(), std::memory_order_acquire);\n        awaiter *req = taken;'),),
